@@ -1782,3 +1782,100 @@ def panic_sinks(b):
             name = [x for x in m if x in PANIC_MACROS][0]
             out.append((name + "!", n, n))
     return out
+
+
+# ----------------------------------------------------------------------------
+# call-graph SCCs (T7)
+# ----------------------------------------------------------------------------
+
+
+def sccs(graph, nodes):
+    """Tarjan over `graph` (dict node -> iterable) restricted to `nodes`."""
+    nodes = set(nodes)
+    index = {}
+    low = {}
+    onstack = set()
+    stack = []
+    out = []
+    counter = [0]
+    import sys as _sys
+    _sys.setrecursionlimit(10000)
+
+    def strong(v):
+        index[v] = low[v] = counter[0]
+        counter[0] += 1
+        stack.append(v)
+        onstack.add(v)
+        for w in graph.get(v, ()):
+            if w not in nodes:
+                continue
+            if w not in index:
+                strong(w)
+                low[v] = min(low[v], low[w])
+            elif w in onstack:
+                low[v] = min(low[v], index[w])
+        if low[v] == index[v]:
+            comp = []
+            while True:
+                w = stack.pop()
+                onstack.discard(w)
+                comp.append(w)
+                if w == v:
+                    break
+            out.append(comp)
+
+    for v in sorted(nodes):
+        if v not in index:
+            strong(v)
+    return out
+
+
+def has_cycle(graph, nodes):
+    nodes = set(nodes)
+    for comp in sccs(graph, nodes):
+        if len(comp) > 1:
+            return True
+        v = comp[0]
+        if v in graph.get(v, ()):
+            return True
+    return False
+
+
+def call_edges(F, b, targets):
+    """call nodes in body b whose (resolved) callee is in `targets`."""
+    out = []
+    for n in b["_nodes"]:
+        if n["k"] in ("Call", "MethodCall"):
+            t = n.get("impl") or n.get("fn")
+            if t in targets:
+                out.append((n, t))
+            elif n.get("fn") in targets:
+                out.append((n, n["fn"]))
+    return out
+
+
+class CountFlow(Flow):
+    """Counts events along paths: state = frozenset of possible counts (capped
+    at 2), None = unreachable."""
+
+    def __init__(self, F, is_event, **kw):
+        Flow.__init__(self, F, is_target=lambda n: False, **kw)
+        self.is_event = is_event
+
+    @staticmethod
+    def join(a, b):
+        if a is None:
+            return b
+        if b is None:
+            return a
+        return a | b
+
+    def mark(self, n, st):
+        if st is None:
+            return None
+        if self.probe is not None and self.probe(n):
+            self.probes.append((n, st))
+        w = self.is_event(n)
+        if w:
+            st = frozenset(min(2, c + 1) for c in st)
+        return st
